@@ -73,7 +73,7 @@ def ob_exp(ctx, D, a, steps, N):
     sizes = tuple(reversed(shape))
     grid = geom.concrete_grid(D, ctx.seed, 0, align_corners=a, sizes=sizes)
     v = _vectors(ctx, "v", N, D, shape, 1 / 64)
-    ctx.eng.gs_mode = "witness" if ctx.mode == "sym" else None
+    ctx.witness_cells()
     cube_axes = "cube_corners" if a else "cube"
     ref = _cube_field_in(ctx, grid, v, cube_axes, a).exp(steps=steps).axes("world").tensor()
     for A in AXES:
@@ -118,7 +118,7 @@ def ob_warp(ctx, D, a, N):
         n *= m
     img = ctx.reals("I", [((7 * i) % 11) / 4 for i in range(n)], nice=(-8, 8)).reshape((N, 1) + shape)
     image = ImageBatch(img, grids)
-    ctx.eng.gs_mode = "witness" if ctx.mode == "sym" else None
+    ctx.witness_cells()
     cube_axes = "cube_corners" if a else "cube"
     ref = _cube_field_in(ctx, grids, v, cube_axes, a).warp_image(image, padding="border").tensor()
     for A in AXES:
